@@ -704,7 +704,13 @@ pub fn perm_relation(run: &mut Run, rng: &mut Rng, n: usize, defs: &str, query: 
         let other = base.with_input(layout_exact(rng, &perm), None, "perm");
         let a1 = observe(run, &other, &jpath, "perm", "permuted");
         run.oracle_checks += 1;
-        if a0 != a1 {
+        // a run that ends in an error has consumed the lines up to the one without a value: HOW MANY that is depends on the line order
+        // and is no part of the result table — an error of the same kind in both orders is the same answer
+        let sans_total = |a: &str| -> String {
+            if !a.starts_with("err:") { return a.to_owned(); }
+            match (a.find(" total="), a.find(" out=")) { (Some(i), Some(j)) if i < j => format!("{}{}", &a[..i], &a[j..]), _ => a.to_owned() }
+        };
+        if sans_total(&a0) != sans_total(&a1) {
             run.fail(format!("{} permuted files={:?}", show_case(&base), other.files.iter().map(|f| String::from_utf8_lossy(f).to_string()).collect::<Vec<_>>()),
                 "e2e-permutation-changes-answer", format!("program answer over the input: {}; over the permuted lines: {}", a0, a1));
         }
